@@ -101,6 +101,7 @@ func GenCalc(t *rapid.T) CalcCase {
 func ExecCalc(c CalcCase) (res core.Result) {
 	defer func() {
 		if r := recover(); r != nil {
+			core.HarnessPanic(r)
 			res.Viol = core.Violate("C20/panic", "prefix arithmetic panicked: %v", r)
 		}
 	}()
